@@ -1,7 +1,12 @@
 #!/bin/sh
-# Builds the conformance harness once from files on disk (offline). Checks rebuild incrementally.
+# Builds the conformance harnesses once from files on disk (offline). Checks rebuild incrementally.
 set -e
-cd "$(dirname "$0")/harness"
-cp /repo/Cargo.lock Cargo.lock
+V="$(cd "$(dirname "$0")" && pwd)"
 export CARGO_NET_OFFLINE=true
+cd "$V/harness"
+cp /repo/Cargo.lock Cargo.lock
 cargo build --offline --workspace --bins 2>&1 | tail -3
+# second workspace: tracing built WITH its `log` feature (C18); kept apart so features are not unified
+cd "$V/harness-log"
+cp /repo/Cargo.lock Cargo.lock
+cargo build --offline --bins 2>&1 | tail -3
